@@ -68,6 +68,9 @@ func NewTimer(kind string, d time.Duration, where string) *Timer {
 	}
 	if s := S; s != nil {
 		s.timers = append(s.timers, t)
+		if t.C != nil {
+			delete(s.closed, reflect.ValueOf(t.C).Pointer())
+		}
 	}
 	return t
 }
@@ -131,6 +134,7 @@ func ownerOf(parent context.Context) *Ctx {
 func newCtx(parent context.Context) *Ctx {
 	c := &Ctx{parent: parent, done: make(chan struct{})}
 	if S != nil {
+		delete(S.closed, reflect.ValueOf(c.done).Pointer())
 		// registry only needed to find owners through WithValue wrappers; per-execution
 		ctxByDone[reflect.ValueOf(c.done).Pointer()] = c
 	}
